@@ -4,7 +4,7 @@
    [po_wserve] (RFC 7386 / RFC 6902 writes, a fresh resourceVersion per write, one foreign write slipped in
    before request number [slip], arbitrary server-side post-processing [post]) in the others. *)
 From Coq Require Import ZArith List String Bool Ascii Sorted.
-From KV Require Import Base.Json Base.Dicts Model.JsonPatch Model.PatchObj Proofs.PatchObj.
+From KV Require Import Base.Json Base.Dicts Model.JsonPatch Model.PatchObj Proofs.PatchObj Model.Carry Proofs.Carry.
 Import ListNotations.
 Open Scope string_scope.
 Open Scope list_scope.
@@ -157,3 +157,44 @@ Theorem C08_apply_decision : forall S serve diff has_sub patch0 clear fns orig d
   (p = false -> po_min delays <> None -> ap_touched r = true \/ (woken = true /\ ap_slept r <> None)).
 Proof. exact po_apply_decision. Qed.
 Print Assumptions C08_apply_decision.
+
+(* ---------- the carry-over from cycle to cycle (Model/Carry.v: process_resource_event's memory.remaining_patch) ---------- *)
+
+(* never lost: what a 422 put into the per-object memory is, after EVERY further sequence of cycles that keeps the object
+   (conflicts, exceptions escaping the cycle, throttled cycles, new fns appended, ...), still carried, or was applied, or
+   was found satisfied *)
+Theorem C08_fns_never_lost : forall tr1 new landed tr2 s0 s',
+  cy_run s0 (tr1 ++ Cyc new (OConflict landed) :: tr2) = Some s' ->
+  forallb cy_keeps tr2 = true ->
+  forall x, In x new -> In x (cy_mem s') \/ In x (cy_applied s') \/ In x (cy_sat s').
+Proof. exact cy_carried_never_lost. Qed.
+Print Assumptions C08_fns_never_lost.
+
+(* progress: from any state one accepted cycle empties the memory and everything carried (and new) is on the server *)
+Theorem C08_fns_delivered : forall s new,
+  exists s', cy_step s (Cyc new OApplied) = Some s' /\ cy_mem s' = [] /\
+             (forall x, In x (cy_mem s) \/ In x new -> In x (cy_applied s')) /\ cy_sat s' = cy_sat s.
+Proof. exact cy_applied_delivers. Qed.
+Print Assumptions C08_fns_delivered.
+
+(* exactly once: under fresh function identities and no batch that is accepted by the server but reported failed *)
+Theorem C08_fns_exactly_once : forall tr1 new tr2 s',
+  cy_run_fresh cy_init (tr1 ++ Cyc new (OConflict false) :: tr2) = Some s' ->
+  forallb cy_clean tr1 = true -> forallb cy_clean tr2 = true -> forallb cy_keeps tr2 = true ->
+  forall x, In x new -> count_occ Nat.eq_dec (cy_mem s' ++ cy_applied s' ++ cy_sat s') x = 1.
+Proof. exact cy_exactly_once. Qed.
+Print Assumptions C08_fns_exactly_once.
+
+Theorem C08_fns_not_duplicated_partial : forall tr s s',
+  cy_run_fresh s tr = Some s' -> forallb cy_clean tr = true -> NoDup (cy_known s) -> NoDup (cy_known s').
+Proof. exact cy_not_duplicated. Qed.
+Print Assumptions C08_fns_not_duplicated_partial.
+
+(* without the second hypothesis "applied at most once" is false of the faithful model: a JSON-patch batch accepted by the
+   server whose call still fails (lost response, failing /status batch) leaves the fns in the memory and the next cycle
+   applies them again (harmless for idempotent transformations, such as kopf's own finalizer edits) *)
+Theorem C08_fns_not_duplicated_refuted :
+  exists tr s', cy_run_fresh cy_init tr = Some s' /\ forallb cy_keeps tr = true /\
+                count_occ Nat.eq_dec (cy_applied s') 1 = 2.
+Proof. exact cy_not_duplicated_refuted. Qed.
+Print Assumptions C08_fns_not_duplicated_refuted.
